@@ -42,7 +42,7 @@ check("C05", "model_checking",
       "fingerprinting machine and input snapshot and by the Recorder seeing no user action.",
       TRUST, "explicit-state BFS with differential (three-implementation) oracle", "E1-explicit-state + VLoop", "DESIGN.md section 4 C05")
 check("C06", "model_checking",
-      "The finite language of guard formulas up to the depth bound (and/or/not over named, parameterised, stateIn, raising, missing atoms; all "
+      "The finite language of guard formulas up to the depth bound (and/or/not over named, parameterised, stateIn, raising, raising-params, missing atoms; all "
       "operand spellings; guard and cond; six positions incl. choose and enqueueActions.check) is enumerated completely through the real "
       "send() on both engines against two-valued evaluation.",
       TRUST, "complete enumeration of a bounded formula language against a reference evaluator", "finite-language-enumerator",
@@ -60,8 +60,8 @@ check("C11", "model_checking",
       TRUST, "explicit-state BFS to closure with reference history memory + snapshot twin", "E1-explicit-state + VLoop",
       "DESIGN.md section 4 C11")
 check("C20", "model_checking",
-      "All descriptor key sets up to the size bound over a 21-key universe (plus internal-name keys), on a leaf and on (leaf,parent) pairs, with "
-      "false-guard and null variants, x 18 event types, through the real send() on both engines against a reference matcher.",
+      "All descriptor key sets up to the size bound over a 23-key universe (plus internal-name keys), on a leaf, on (leaf,parent) pairs and on (leaf,parent,machine root) triples, with "
+      "false-guard and null variants, x 25 event types, through the real send() on both engines against a reference matcher.",
       TRUST, "complete enumeration of bounded descriptor key sets against a reference matcher", "finite-language-enumerator",
       "DESIGN.md section 4 C20")
 
